@@ -2,7 +2,7 @@
 """keep_seeded.py <PROP> <k> <id> <caught:yes|no|n/a> "<needs>" "<what I ran / result>" """
 import json, os, shutil, sys
 prop, k, sid, caught, needs, ran = sys.argv[1:7]
-src = f"/tmp/out-{prop}/{k}"
+src = f"{os.environ.get('OUTBASE', '/tmp/out')}-{prop}/{k}"
 dst = f"/verif/seeded/{sid}"
 os.makedirs(dst, exist_ok=True)
 for f in ("patch.diff", "demo.py", "notes.md"):
